@@ -162,8 +162,13 @@ def get_type_graph(t: type) -> graphlib.TopologicalSorter[TypeNode]:
                 ref = refs.forwardref(
                     refname, is_argument=is_argument, module=module, is_class=is_class
                 )
+                # The unwrapped type lives in its own module, which is not
+                #   necessarily the module of the alias/NewType wrapping it.
                 uref = refs.forwardref(
-                    unwrapped, is_argument=is_argument, module=module, is_class=is_class
+                    unwrapped,
+                    is_argument=is_argument,
+                    module=getattr(unwrapped, "__module__", None) or module,
+                    is_class=is_class,
                 )
                 node = TypeNode(ref, uref, var=var, cyclic=True)
             # Otherwise, add the type to the stack and track that it's been seen.
